@@ -372,4 +372,4 @@ BOUNDS = dict(
     "different termination indices); lanczos_eigs for Krylov dimension <= 2",
     thorough="adds n = 5 (real), n = 4 (complex), all max_iters for both bases",
     values="alpha_j, beta_j > 0, s > 0, 0 < tol < 1 symbolic; every stopping index is a path, path coverage checked by z3")
-BOUNDS["added"] = 'two factorisations of the same size / step count in one process, examined after both calls'
+BOUNDS["added"] = 'two factorisations of the same size / step count in one process, examined after both calls Thorough tier: n <= 7, four rational bases per size.'
